@@ -15,6 +15,7 @@ def jobs(tier):
         J.append(job(W, alg, 1)); J.append(job(W, alg, 2))
     for B in (7, 10):
         J.append(job(W, 'bc', 4, size=B, pres='list', order='desc')); J.append(job(W, 'bc', 5, size=B, pres='list', order='desc', lo=1))
+    J.append(job(W, 'bc', 5, size=7, pres='list', order='desc', lo=1, m=4)); J.append(job(W, 'bc', 4, size=10, pres='list', order='desc', lo=1, m=5))
     J.append(job(W, 'bc', 1, size=10, pres='list')); J.append(job(W, 'bc', 6, size=10, pres='list', order='desc', lo=1))
     J.append(job(W, 'multifit', 3, size=2, iterations=2))
     for o in ('diff', 'min'):
@@ -23,6 +24,8 @@ def jobs(tier):
         J.append(job(W, alg, 3)); J.append(job(W, alg, 4, order='desc', other='snp'))
     J.append(job(W, 'bc', 3, size=10, pres='list'))
     if tier == 'thorough':
+        J.append(job(W, 'bc', 6, size=10, pres='list', order='desc', lo=1, m=5)); J.append(job(W, 'bc', 6, size=7, pres='list', order='desc', lo=1, m=5))
+        J.append(job(W, 'ckk', 3, size=2, m=3)); J.append(job(W, 'snp', 3, size=3, order='desc', m=3)); J.append(job(W, 'c34', 3, m=3)); J.append(job(W, 'bfd', 3, m=3))
         for alg in ('greedy', 'kk', 'ckk', 'snp', 'rnp'):
             J.append(job(W, alg, 4, size=2)); J.append(job(W, alg, 4, size=3, order='desc', other='dp'))
         for alg in ('ff', 'ffd', 'bf', 'bfd', 'cdec', 'c23', 'c34'):
